@@ -214,7 +214,14 @@ def check_property(pid, tier='quick', seed=0, replay_only=None):
             else:
                 internal_only.append(oid)
                 lines.append('UNDECIDED property=%s the statement that obligation %s is attached to no longer exists (%s) and no failing input was found on the real code' % (pid, oid, why[:160]))
-    if violations and not undecided:
+    # refutations are judged unit by unit: an obligation of a unit the verifier could take is reported even when ANOTHER
+    # unit of the property is undecided (only the undecided unit's own failures are withheld)
+    def _unit_ok(oid):
+        un = oid.split('/')[0]
+        return un in ('scan', 'kani') or (un in results and results[un].status == 'ok')
+    withheld = [(o, m) for (o, m) in violations if not _unit_ok(o)]
+    violations = [(o, m) for (o, m) in violations if _unit_ok(o)]
+    if violations:
         from . import replay as RP
         confirmed = []
         for oid, msgs in violations:
@@ -246,6 +253,8 @@ def check_property(pid, tier='quick', seed=0, replay_only=None):
                 lines.append('UNDECIDED property=%s proof-internal obligation %s no longer holds (the proof needs repair) and no failing input was found on the real code; see %s' % (pid, oid, path))
         violations = [(o, m) for (o, m) in violations if o in confirmed]
         exit_code = 1 if violations else 2
+    for oid, msgs in withheld:
+        lines.append('UNDECIDED property=%s obligation %s fails, but its unit is undecided so it is not reported as a violation' % (pid, oid))
     # a unit the verifier could not take (lost anchor, construct outside the dialect, rlimit): the property
     # is undecided for the verifier - but the unit's replay battery still executes the real code; a concrete
     # failing input is reported as a violation (it is one), nothing else changes the UNDECIDED outcome
@@ -335,9 +344,6 @@ def check_property(pid, tier='quick', seed=0, replay_only=None):
                     break
     if rescue:
         exit_code = 1
-    if violations and undecided:
-        for oid, msgs in violations:
-            lines.append('UNDECIDED property=%s obligation %s fails, but the unit is undecided so it is not reported as a violation' % (pid, oid))
     if lost_viol:
         violations = list(violations) + [(o, ['anchor lost; concrete failing input found by replay']) for o in lost_viol]
         exit_code = 1
@@ -378,7 +384,7 @@ def check_property(pid, tier='quick', seed=0, replay_only=None):
         },
         'assumptions': entry.get('assumptions', []) + ['see coverage.trusted_base: every external_body/assume_specification/axiom/uninterpreted function, N3 rename, N6 havoc and N7 reduced struct of the generated files, found by mechanical scan'],
         'wall_s': round(time.time() - t0, 2),
-        'violations': (len(violations) if not undecided else 0) + len(rescue),
+        'violations': len(violations) + len(rescue),
     }
     # evidence/ is written only by runs against /repo itself; experiments on a scratch copy (VERIF_REPO) keep theirs apart
     evdir = os.path.join(VERIF, 'evidence') if R.REPO == '/repo' else os.path.join(R.WORK, 'evidence')
@@ -387,7 +393,7 @@ def check_property(pid, tier='quick', seed=0, replay_only=None):
     for l in lines:
         print(l)
     print('%s tier=%s obligations=%d discharged=%d known=%d violations=%d undecided=%d wall=%.1fs' % (
-        pid, tier, n_obl, n_dis, len(known_hits), (len(violations) if not undecided else 0) + len(rescue), len(undecided) + len(never_proved) + len(internal_only) + len(unstable), time.time() - t0))
+        pid, tier, n_obl, n_dis, len(known_hits), len(violations) + len(rescue), len(undecided) + len(never_proved) + len(internal_only) + len(unstable), time.time() - t0))
     return exit_code
 
 
